@@ -107,6 +107,9 @@ class Folder:
             raise Unfoldable("recursion")
         try:
             return self._fold(e)
+        except (TypeError, AttributeError, ValueError, RecursionError) as ex:
+            # an operation of the host language on abstract values that this evaluation does not model
+            raise Unfoldable("%s: %s(%s)" % (unparse(e)[:60], type(ex).__name__, ex))
         finally:
             self.depth -= 1
 
